@@ -343,7 +343,9 @@ def run_check():
     ck.do_audit()
     import_ws()
     nseq, nops = (60, 6) if ck.tier == "quick" else (600, 12)
-    res = pmap(run_sequence, [(ck.seed, i, nops) for i in range(nseq)])
+    from ..common import replay_ids
+
+    res = pmap(run_sequence, [(ck.seed, i, nops) for i in replay_ids(ck, nseq)])
     # the model's frame prediction for the same op names (all write-sets empty after the repair)
     opnames = sorted({s["op"] for r in res for s in r["steps"]})
     resp = run_driver([f"frame {len(opnames)} " + " ".join(n.replace(" ", "_") for n in opnames)])[0]
@@ -363,10 +365,10 @@ def run_check():
                 excs[s["op"]] = s["exc"]
                 ck.count("raised:" + s["op"])
                 if "read-only" in s["exc"] or "readonly" in s["exc"]:
-                    ck.fail(s["op"], f"attempted an in-place write to a caller-owned read-only array: {s['exc']}", dict(seq=r["icase"], step=s),
+                    ck.fail(s["op"], f"attempted an in-place write to a caller-owned read-only array: {s['exc']}", dict(icase=r["icase"], step=s),
                             "inplace_write_attempt")
             if s["changed"]:
-                ck.fail(s["op"], f"caller-owned data changed: {s['changed']}", dict(seq=r["icase"], step=s), "argument_modified")
+                ck.fail(s["op"], f"caller-owned data changed: {s['changed']}", dict(icase=r["icase"], step=s), "argument_modified")
             if writes.get(s["op"], "-") != "-":
                 ck.disagree(s["op"], f"model declares write-set {writes[s['op']]}", dict(step=s))
     ck.extra["operations_run"] = nrun
